@@ -28,7 +28,7 @@ if sh("git -C /repo status --porcelain --untracked-files=no").stdout.strip():
     sys.exit("/repo is not clean")
 if sh("git -C /repo apply %s" % patch).returncode != 0:
     if sh("git -C /repo apply --3way %s" % patch).returncode != 0:
-        sh("git -C /repo checkout -- . ; git -C /repo reset -q")
+        sh("git -C /repo reset -q HEAD ; git -C /repo checkout -- .")
         sys.exit("patch does not apply")
 results = {}
 try:
@@ -46,7 +46,7 @@ try:
             results[cid]["first_witness"] = w.group(1)[:400]
         print(name, cid, verdict, kinds)
 finally:
-    sh("git -C /repo checkout -- . ; git -C /repo reset -q")
+    sh("git -C /repo reset -q HEAD ; git -C /repo checkout -- .")
     # the evidence files now describe a mutated tree: restore the committed ones
     sh("cd /verif && git checkout -- evidence")
 meta_p = os.path.join(sdir, "meta.json")
